@@ -4,7 +4,7 @@
    aiotarstream.py + extract_tar_stream as they are now in /repo (after the fix: commits 733cb27, 9f2640a);
    [true] is the code before them.  A stream is the list of chunks the underlying reader delivers. *)
 From Coq Require Import List NArith Lia.
-From SF Require Import TarStream.Model TarStream.Proofs TarStream.Trunc TarStream.Roundtrip.
+From SF Require Import TarStream.Model TarStream.Proofs TarStream.Trunc TarStream.Roundtrip TarStream.Frombuf TarStream.RoundtripS.
 Import ListNotations.
 Local Open Scope N_scope.
 
@@ -86,8 +86,7 @@ Proof. exact legacy_hang_refuted. Qed.
 
 (* ---- writer (AioTarStream.addfile / _close): data is padded to the next block, members stay block-aligned
    when CPython's header blocks are, and the archive ends on a record boundary (what GNU tar expects).
-   Partial: the header bytes themselves (TarInfo.tobuf) are not modelled; parse (write t) = t is exercised by
-   the correspondence (CWrite) and the oracle (Python tarfile + GNU tar read the real writer's output), not proved. ---- *)
+   (parse (write t) = t is C23_roundtrip below.) ---- *)
 Theorem C23_writer_padding_partial : forall n, n + pad512 n = block n /\ block n mod 512 = 0 /\ n <= block n.
 Proof. intros n. split; [exact (pad512_block n)|split; [exact (block_mod n)|exact (block_ge n)]]. Qed.
 Theorem C23_writer_block_aligned_partial : forall ms,
@@ -97,20 +96,39 @@ Proof. exact write_archive_block_aligned. Qed.
 Theorem C23_writer_record_aligned_partial : forall ms, lenN (write_archive ms) mod 10240 = 0.
 Proof. exact write_archive_record_aligned. Qed.
 
-(* ---- header writer (Model.tobuf = TarInfo.tobuf(GNU_FORMAT), tied to the real writer's bytes by the
-   correspondence): every numeric field written by itn is read back by nti, every string field written by stn
-   is read back by nts, for all values that fit.  Partial: the block-level statement
-   frombuf (hdr_block ...) = HOk ... and members_flat (write_archive (map tobuf ms)) = ms are NOT proved
-   (draft in design/notes/C23_frombuf_hdr_block.v.txt). ---- *)
-Theorem C23_roundtrip_octal_field_partial : forall k n r,
+(* ---- reader after writer = identity.  Model.tobuf = TarInfo.tobuf(GNU_FORMAT) (tied to the real writer's bytes
+   by the correspondence, CWrite); write_archive = AioTarStream.addfile/_close.  [wf] = what the writer can encode
+   in octal GNU fields: type regular/directory/symlink/hard link, names and link names of ANY length without NUL
+   (GNU long-name / long-link records above 100 bytes), mode < 0o10000, size = |data| < 8^11, uid/gid < 8^7.
+   [expect] is the member itself, except that a directory whose name needed a long-name record is read back with
+   the trailing "/" the writer appended (_proc_gnulong does not strip it, unlike CPython >= 3.12). ---- *)
+Theorem C23_roundtrip : forall ms : list wmem, Forall wf ms ->
+  members_flat (write_archive (map enc ms)) = (Done, map expect ms).
+Proof. exact roundtrip. Qed.
+Example C23_roundtrip_example :
+  Forall wf ex_ms /\ map expect ex_ms = map (fun m => (w_h m, w_data m)) ex_ms
+  /\ lenN (write_archive (map enc ex_ms)) = 10240 /\ 100 < lenN ex_long.
+Proof.
+  split; [exact ex_ms_wf|]. destruct ex_ms_computes as (_ & H & L). split; [exact H|]. split; [exact L|].
+  vm_compute. reflexivity.
+Qed.
+(* every chunking of the written archive is read back the same way *)
+Theorem C23_roundtrip_chunked : forall (ms : list wmem) (s : stream), Forall wf ms ->
+  concat s = write_archive (map enc ms) -> members_chunked false s = (Done, map expect ms).
+Proof. intros ms s H E. rewrite members_chunked_flat, E. now apply roundtrip. Qed.
+(* block level: frombuf reads back _create_header's block *)
+Theorem C23_roundtrip_header : forall name mode size ty link mt,
+  le255 name -> le255 link -> meta_ok mt -> mode < pow8 7 -> size < pow8 11 -> ty <= 255 ->
+  ty <> 0 -> ty <> T_GNUSPARSE ->
+  frombuf (hdr_block name mode size ty link mt) = HOk (hdr_read name mode size ty link).
+Proof. exact frombuf_hdr_block. Qed.
+(* field level *)
+Theorem C23_roundtrip_octal_field : forall k n r,
   n < pow8 (S k) -> nti (oct_digits (S k) n ++ 0 :: r) = NOk n.
 Proof. exact nti_digits. Qed.
-Theorem C23_roundtrip_string_field_partial : forall s len,
+Theorem C23_roundtrip_string_field : forall s len,
   Forall (fun b => b <> 0) s -> lenN s <= len -> nts (stn s len) = s.
 Proof. exact nts_stn. Qed.
-Example C23_roundtrip_field_examples :
-  nti (itn12 700) = NOk 700 /\ nts (stn [100;47;97] 100) = [100;47;97] /\ lenN (tobuf {| h_name := [100]; h_mode := 493; h_size := 0; h_type := 53; h_link := [] |} meta0) = 512.
-Proof. vm_compute. repeat split; reflexivity. Qed.
 
 Print Assumptions C23_chunking. Print Assumptions C23_chunking_reference. Print Assumptions C23_chunking_members.
 Print Assumptions C23_read_is_the_python_loop. Print Assumptions C23_read_exact.
@@ -121,4 +139,5 @@ Print Assumptions C23_corrupt_header_fails_refuted. Print Assumptions C23_legacy
 Print Assumptions C23_legacy_no_partial_member_refuted. Print Assumptions C23_legacy_hang_refuted.
 Print Assumptions C23_writer_padding_partial. Print Assumptions C23_writer_block_aligned_partial.
 Print Assumptions C23_writer_record_aligned_partial.
-Print Assumptions C23_roundtrip_octal_field_partial. Print Assumptions C23_roundtrip_string_field_partial.
+Print Assumptions C23_roundtrip. Print Assumptions C23_roundtrip_chunked. Print Assumptions C23_roundtrip_header.
+Print Assumptions C23_roundtrip_octal_field. Print Assumptions C23_roundtrip_string_field.
